@@ -36,12 +36,8 @@ def method(name, aid=None):
 def partial(ex, p, e, name, *args):
     """a partial primitive: forks the exceptional outcome `name!exc(args) != 0`, continues with == 0"""
     vs = [asV(a) for a in args]
-    c = code(name, *vs)
-    pe = p.assume(c != 0)
-    if ex.feasible(pe):
-        ex.raise_(pe, c, app(name + "_msg", *vs), getattr(e, "lineno", None))
-    pk = p.assume(c == 0)
-    if ex.feasible(pk):
+    pk = ex.may_raise(p, code(name, *vs), app(name + "_msg", *vs), getattr(e, "lineno", None))
+    if pk is not None:
         return [(app(name, *vs), pk)]
     return []
 
@@ -481,6 +477,8 @@ def axioms():
     # numeric kinds: integer kind = Python int (incl. bool) or NumPy integer
     A(FA([x], intk(x) == z3.Or(pred("isinst_int", x), pred("isinst_np.integer", x)), intk(x), pred("isinst_int", x), pred("isinst_np.integer", x)))
     A(FA([x], z3.Implies(intk(x), pred("is_negative", x) == pred("py_lt", x, IntV(0))), pred("is_negative", x), pred("py_lt", x, IntV(0))))
+    A(FA([x], pred("is_complexkind", x) == z3.Or(pred("isinst_complex", x), pred("isinst_np.complexfloating", x)),
+         pred("is_complexkind", x), pred("isinst_complex", x), pred("isinst_np.complexfloating", x)))
     # np.power: integer-kind base with a negative integer-kind exponent raises ValueError; otherwise no exception (A-numpy-arith)
     pc = code("POW", x, y)
     A(FA([x, y], z3.And((pc != 0) == z3.And(intk(x), intk(y), pred("is_negative", y)), z3.Or(pc == 0, pc == EXC_CODE["ValueError"])), pc))
